@@ -12,12 +12,16 @@
 (* Invariant checked on every state: the Ref codec round-trips the packet   *)
 (* under construction (RefDecode(RefEncodePlain(pkt)) = pkt).               *)
 (***************************************************************************)
-EXTENDS Domains, TLC, Json
+EXTENDS Domains, Builder, TLC, Json
 
 CONSTANTS MaxEntries
 
-VARIABLES pkt, done
-vars == <<pkt, done>>
+VARIABLES pkt,      \* the abstract packet under construction
+          hist,     \* the API calls made so far
+          pending,  \* the call chosen for the next step (<<>> = none): drawn in one step, applied in the
+                    \* next, so that a random draw is used exactly once
+          done
+vars == <<pkt, hist, pending, done>>
 
 Lc == <<99>>
 Lz == <<122>>
@@ -52,42 +56,47 @@ RandQuestion(x) ==
 OptVals == {[udp |-> u, version |-> v, options |-> o] :
               u \in {0, 512, 1232, 65535}, v \in {0, 1, 128, 255}, o \in Dom(Tlv)}
 
-Blank(id, fs) == [id |-> id, fs |-> fs, opcode |-> 0, rcode |-> 0, opt |-> <<>>,
-                  qd |-> <<>>, an |-> <<>>, ns |-> <<>>, ar |-> <<>>]
-
-Init == /\ \E id \in {0, 4660, 65535} : pkt \in {Blank(id, 0), Blank(id, 32768)}   \* new_query / new_reply
-        /\ done = FALSE
-
 Entries == Len(pkt.qd) + Len(pkt.an) + Len(pkt.ns) + Len(pkt.ar)
+Room == Entries < MaxEntries
 
-RandFlags(x) == RandomElement(SUBSET FlagNames)
-SetFlags == pkt' = [pkt EXCEPT !.fs = MaskOf(HdrFlagSet(@) \cup RandFlags(pkt))]
-RemoveFlags == pkt' = [pkt EXCEPT !.fs = MaskOf(HdrFlagSet(@) \ RandFlags(pkt))]
-SetOpcode == pkt' = [pkt EXCEPT !.opcode = RandomElement(NamedOpcodes)]
-SetRcode == pkt' = [pkt EXCEPT !.rcode = RandomElement(IF pkt.opt = <<>> THEN NamedRcodes4 ELSE NamedRcodes)]
-SetOpt == pkt' = [pkt EXCEPT !.opt = <<RandomElement(OptVals)>>]
-PushQ == Entries < MaxEntries /\ pkt' = [pkt EXCEPT !.qd = Append(@, RandQuestion(pkt))]
-PushAn == Entries < MaxEntries /\ pkt' = [pkt EXCEPT !.an = Append(@, RandRecord(pkt))]
-PushNs == Entries < MaxEntries /\ pkt' = [pkt EXCEPT !.ns = Append(@, RandRecord(pkt))]
-PushAr == Entries < MaxEntries /\ pkt' = [pkt EXCEPT !.ar = Append(@, RandRecord(pkt))]
+\* one API call, chosen by a die (the generator is run with -simulate)
+RandOp(x) ==
+  LET die == RandomElement(1 .. 26) IN
+  CASE die = 1 -> [op |-> "set_flags", v |-> MaskOf(RandomElement(SUBSET FlagNames))]
+    [] die = 2 -> [op |-> "remove_flags", v |-> MaskOf(RandomElement(SUBSET FlagNames))]
+    [] die = 3 -> [op |-> "set_opcode", v |-> RandomElement(NamedOpcodes)]
+    [] die = 4 -> [op |-> "set_rcode", v |-> RandomElement(IF x.opt = <<>> THEN NamedRcodes4 ELSE NamedRcodes)]
+    [] die = 5 -> [op |-> "set_opt", v |-> RandomElement(OptVals)]
+    [] die = 23 -> IF x.rcode = 16 THEN [op |-> "set_rcode", v |-> 0] ELSE [op |-> "clear_opt", v |-> 0]
+    [] die = 24 -> [op |-> "set_id", v |-> RandomElement({0, 1, 255, 256, 4660, 65535})]
+    [] die = 25 -> IF x.rcode = 16 THEN [op |-> "set_rcode", v |-> 0] ELSE [op |-> "into_reply", v |-> 0]
+    [] die \in 6 .. 9 /\ Room -> [op |-> "push_q", v |-> RandQuestion(x)]
+    [] die \in 10 .. 15 /\ Room -> [op |-> "push_an", v |-> RandRecord(x)]
+    [] die \in 16 .. 18 /\ Room -> [op |-> "push_ns", v |-> RandRecord(x)]
+    [] die \in 19 .. 22 /\ Room -> [op |-> "push_ar", v |-> RandRecord(x)]
+    [] OTHER -> [op |-> "set_flags", v |-> 0]
 
-\* one API call per step, chosen by a die (the generator is run with -simulate)
-Build ==
-  /\ ~done
-  /\ LET die == RandomElement(1 .. 24) IN
-     CASE die = 1 -> SetFlags [] die = 2 -> RemoveFlags [] die = 3 -> SetOpcode [] die = 4 -> SetRcode
-       [] die = 5 -> SetOpt [] die \in 6 .. 9 -> PushQ [] die \in 10 .. 15 -> PushAn
-       [] die \in 16 .. 18 -> PushNs [] die \in 19 .. 22 -> PushAr [] OTHER -> UNCHANGED pkt
-  /\ UNCHANGED done
-Finish == ~done /\ RandomElement(1 .. 10) = 1 /\ done' = TRUE /\ UNCHANGED pkt
+Init == /\ \E id \in {0, 4660, 65535}, c \in {"new_query", "new_reply"} :
+             /\ hist = <<[op |-> c, v |-> id]>>
+             /\ pkt = ApplyOp(BlankPacket(0, 0), [op |-> c, v |-> id])
+        /\ pending = <<>> /\ done = FALSE
 
-Next == Build \/ Finish
+Choose == ~done /\ pending = <<>> /\ pending' = <<RandOp(pkt)>> /\ UNCHANGED <<pkt, hist, done>>
+Apply == /\ ~done /\ pending # <<>>
+         /\ pkt' = ApplyOp(pkt, pending[1]) /\ hist' = Append(hist, pending[1]) /\ pending' = <<>>
+         /\ UNCHANGED done
+Finish == ~done /\ pending = <<>> /\ RandomElement(1 .. 10) = 1 /\ done' = TRUE /\ UNCHANGED <<pkt, hist, pending>>
+
+Next == Choose \/ Apply \/ Finish
 Spec == Init /\ [][Next]_vars
+
+\* the transition function and the history agree (the model's own consistency)
+HistoryConsistent == LET r == RunOps(hist) IN r[Len(r)] = pkt
 
 RefRoundTrip ==
   LET m == RefEncodePlain(pkt)
       d == RefDecode(m) IN
   Encodable(pkt) /\ d.ok /\ d.exact /\ d.end = Len(m) /\ d.pkt = pkt
 
-Emit == done => PrintT(<<"CASE", ToJson([pkt |-> pkt])>>)
+Emit == done => PrintT(<<"CASE", ToJson([pkt |-> pkt, hist |-> hist])>>)
 =============================================================================
